@@ -59,8 +59,18 @@ mod replay {
     }
     const PAGE: usize = 4096;
 
+    static CALLS: std::sync::atomic::AtomicUsize = std::sync::atomic::AtomicUsize::new(0);
+
+    /// VERIF_PLACE = right (default): every slice ends at a PROT_NONE page;
+    /// left: every slice starts right after one; mix1 / mix2: slices are
+    /// alternately placed in the interior of a mapping and flush right
+    /// (odd / even calls), for code whose behaviour depends on where the
+    /// *other* operand lies.
     pub fn place(s: &[u8]) -> &'static [u8] {
-        let left = std::env::var("VERIF_PLACE").map(|v| v == "left").unwrap_or(false);
+        let mode = std::env::var("VERIF_PLACE").unwrap_or_default();
+        let k = CALLS.fetch_add(1, std::sync::atomic::Ordering::Relaxed);
+        let interior = (mode == "mix1" && k % 2 == 0) || (mode == "mix2" && k % 2 == 1);
+        let left = mode == "left";
         let body = (s.len() + 64 + PAGE - 1) / PAGE * PAGE + PAGE;
         let total = body + 2 * PAGE;
         unsafe {
@@ -69,7 +79,9 @@ mod replay {
             assert!(!base.is_null() && base as isize != -1, "mmap failed");
             assert_eq!(0, mprotect(base, PAGE, 0));
             assert_eq!(0, mprotect(base.add(PAGE + body), PAGE, 0));
-            let p = if left {
+            let p = if interior {
+                base.add(PAGE + 64)
+            } else if left {
                 base.add(PAGE)
             } else {
                 base.add(PAGE + body - s.len())
